@@ -1,5 +1,6 @@
 import OrbitModel.Proofs.CrashSummary
 import OrbitModel.Proofs.GenEqWrite
+import OrbitModel.Proofs.GenEqLoadHeads
 import OrbitModel.Proofs.GenEqLoadComplete
 import OrbitModel.Proofs.StoreReach
 import OrbitModel.Proofs.CrashExample
@@ -41,5 +42,10 @@ traces the theorems quantify over: a local write persists its head right after t
 batch persists the heads of the MERGED log after the joins and before it is reported -/
 theorem persistence_order_tied_to_go_text : Gen.addOperationOrder = Order.addOperation ∧
     Gen.loadCompleteOrder = Order.loadComplete := ⟨gen_addOperation_order, gen_loadComplete_order⟩
+
+/-- `Load` in the Go text of this run decodes the two cached keys into the two head lists the model
+reloads from, and loads local heads followed by remote heads -/
+theorem reload_sources_tied_to_go_text : Gen.loadDecodes = Order.loadDecodes ∧ Gen.loadDecodesHeads = Order.loadHeads :=
+  gen_loadDecodes
 
 end Orbit.C05
